@@ -31,7 +31,7 @@ type RValV struct {
 }
 
 var rtypeFake = &fakeType{name: "*reflect.rtype", methods: map[string]bool{"MethodByName": true, "In": true, "Out": true, "NumIn": true, "NumOut": true,
-	"Name": true, "String": true, "Kind": true, "AssignableTo": true, "ConvertibleTo": true, "Elem": true}, anyIface: true}
+	"Name": true, "String": true, "Kind": true, "AssignableTo": true, "ConvertibleTo": true, "Elem": true, "IsVariadic": true, "Implements": true}, anyIface: true}
 
 func (ex *Exec) rtype(t types.Type) value { return iface{rtypeFake, RTypeV{t: t}} }
 
@@ -199,6 +199,43 @@ func (ex *Exec) reflectTypeMethod(recv iface, name string) *modelClosure {
 		return mk(func(ex *Exec, fr *frame, pos token.Pos, args []value) value { return ex.strConst(goTypeString(r.t)) })
 	case "Kind":
 		return mk(func(ex *Exec, fr *frame, pos token.Pos, args []value) value { return ex.k(kindOf(r.t)) })
+	case "IsVariadic":
+		return mk(func(ex *Exec, fr *frame, pos token.Pos, args []value) value {
+			sig, ok := r.t.Underlying().(*types.Signature)
+			if !ok {
+				ex.oblige("panic", "reflect: IsVariadic of non-func type", fr, pos, ex.b.False)
+			}
+			return ex.b.Bool(sig.Variadic())
+		})
+	case "Implements":
+		return mk(func(ex *Exec, fr *frame, pos token.Pos, args []value) value {
+			u, ok := rtypeOf(args[1])
+			if !ok {
+				ex.oblige("panic", "reflect: nil type passed to Type.Implements", fr, pos, ex.b.False)
+			}
+			it, ok := u.t.Underlying().(*types.Interface)
+			if !ok {
+				ex.oblige("panic", "reflect: non-interface type passed to Type.Implements", fr, pos, ex.b.False)
+			}
+			return ex.b.Bool(types.Implements(r.t, it))
+		})
+	case "Elem":
+		return mk(func(ex *Exec, fr *frame, pos token.Pos, args []value) value {
+			switch u := r.t.Underlying().(type) {
+			case *types.Pointer:
+				return ex.rtype(u.Elem())
+			case *types.Slice:
+				return ex.rtype(u.Elem())
+			case *types.Array:
+				return ex.rtype(u.Elem())
+			case *types.Map:
+				return ex.rtype(u.Elem())
+			case *types.Chan:
+				return ex.rtype(u.Elem())
+			}
+			ex.oblige("panic", "reflect: Elem of invalid type", fr, pos, ex.b.False)
+			return nil
+		})
 	case "AssignableTo", "ConvertibleTo":
 		return mk(func(ex *Exec, fr *frame, pos token.Pos, args []value) value {
 			u, ok := rtypeOf(args[1])
@@ -302,6 +339,34 @@ func init() {
 			return ex.k(0)
 		}
 		return ex.k(kindOf(r.t))
+	})
+	reg("(reflect.Value).IsNil", func(ex *Exec, fr *frame, pos token.Pos, args []value) value {
+		r := ex.rvalOf(args[0])
+		if !r.valid {
+			ex.oblige("panic", "reflect: call of reflect.Value.IsNil on zero Value", fr, pos, ex.b.False)
+		}
+		switch v := r.v.(type) {
+		case nil:
+			return ex.b.True
+		case *ssa.Function:
+			return ex.b.Bool(v == nil)
+		case *closure:
+			return ex.b.Bool(v == nil)
+		case *value:
+			return ex.b.Bool(v == nil)
+		case []value:
+			return ex.b.Bool(v == nil)
+		case *MapV:
+			return ex.b.Bool(v == nil)
+		case iface:
+			return ex.b.Bool(v.t == nil)
+		}
+		switch r.t.Underlying().(type) {
+		case *types.Signature, *types.Pointer, *types.Slice, *types.Map, *types.Chan, *types.Interface:
+			panic(ex.unsupported(fmt.Sprintf("reflect.Value.IsNil on %T", r.v)))
+		}
+		ex.oblige("panic", "reflect: call of reflect.Value.IsNil on a non-nillable kind", fr, pos, ex.b.False)
+		return ex.b.False
 	})
 	reg("(reflect.Value).Bool", func(ex *Exec, fr *frame, pos token.Pos, args []value) value {
 		r := ex.rvalOf(args[0])
